@@ -274,13 +274,13 @@ class Equation:
         Return a list of ranks in the tensor
         """
         str_ranks = []
-        for ijust in ranks.find_data("ijust"):
-            rank = ParseUtils.next_str(ijust).upper()
-            str_ranks.append(rank)
-
-        for itimes in ranks.find_data("itimes"):
-            rank = str(itimes.children[1]).upper()
-            str_ranks.append(rank)
+        for iexpr in ranks.children:
+            for iterm in iexpr.children:
+                if iterm.data == "ijust":
+                    rank = ParseUtils.next_str(iterm).upper()
+                else:
+                    rank = str(iterm.children[1]).upper()
+                str_ranks.append(rank)
 
         return str_ranks
 
